@@ -372,7 +372,9 @@ PROPS = {
     "C08": {
         "bridge": RENDER + DEC("Function"),
         "sweeps": [sweep_front("signatures", 140, 3000, cats=["header", "missing-func", "exit"]),
-                   sweep_front("imports", 80, 2000, cats=["header", "missing-func", "exit"])],
+                   sweep_front("imports", 80, 2000, cats=["header", "missing-func", "exit"]),
+                   # one function per method also for methods a converter interface inherits
+                   sweep_front("selection", 60, 2000, cats=["header", "missing-func", "exit"])],
         "rule": FRONT_RULE % "signatures",
         "explanation": "sigHead = documented header for every shape except receiver + return style + additional args (witness); "
                        "results as documented; names/pointer-ness preserved by createVar; illegal :reverse combinations rejected",
